@@ -1,6 +1,7 @@
 //! srvsim driver: the real agdb_server compiled in-process and driven through its axum Router
 //! on a current_thread tokio runtime (engine E3).
 
+mod c25;
 mod c31;
 mod server;
 
@@ -15,6 +16,14 @@ fn c31_exec(plan: &Value, t: &mut Trials) -> RunReport {
     c31::exec(&plan, t)
 }
 
+fn c25_gen(seed: u64, run: u64, tier: Tier) -> Value {
+    serde_json::to_value(c25::generate(seed, run, tier)).unwrap()
+}
+fn c25_exec(plan: &Value, t: &mut Trials) -> RunReport {
+    let plan: c25::Plan = serde_json::from_value(plan.clone()).expect("bad plan");
+    c25::exec(&plan, t)
+}
+
 const REAL: &[&str] = &["agdb_server: routes, ServerDb, DbPool, UserDb, ClusterStorage, ClusterLog, actions, single-node raft::Cluster; agdb underneath (real files in a per-run scratch directory)"];
 const STUB: &[&str] = &["HTTP transport: direct tower::Service calls on the axum Router (no sockets)", "task scheduler: real tokio current_thread runtime; the start order of committed-action execution tasks is chosen by the simulator through the H6 hook", "clock: wall clock plus a simulator-owned offset (H5 hook) for token expiry"];
 
@@ -27,7 +36,7 @@ fn find(id: &str) -> Option<CheckDef> {
             exec: c31_exec,
             steps: "/acts",
             runs: |t| match t {
-                Tier::Quick => 160,
+                Tier::Quick => 800,
                 Tier::Thorough => 6000,
             },
             wall_cap_s: |t| match t {
@@ -39,6 +48,26 @@ fn find(id: &str) -> Option<CheckDef> {
             real: REAL,
             stub: STUB,
             eval_unit: "concurrent-commit runs compared with sequential execution",
+        }),
+        "C25" => Some(CheckDef {
+            id: "C25",
+            level: "exploration",
+            generate: c25_gen,
+            exec: c25_exec,
+            steps: "/steps",
+            runs: |t| match t {
+                Tier::Quick => 800,
+                Tier::Thorough => 6000,
+            },
+            wall_cap_s: |t| match t {
+                Tier::Quick => 150,
+                Tier::Thorough => 1700,
+            },
+            rule: "histories = seeded batches (1-5 queries from the database operation language: node/edge/value/alias/index inserts, updates and removals by id, alias and search, mixed with reads) submitted by two users through exec_mut to a database of a seeded kind (mapped / file / memory) on the in-process server; abort injection: a failing query at a seeded position (missing element, empty alias, length mismatch, existing index), an out-of-bounds result reference, a mutating batch sent to the read-only endpoint; some batches refer to earlier results by ':k'; server restarts in between (non-memory kinds); after every step the result of a fixed read batch (node count, all elements, all values, aliases, indexes) on the server is compared with the same batch on a local reference database that executed each batch as one agdb transaction, and the audit log must list exactly the mutating queries of the applied batches in order with the submitting user; evaluations = steps compared; distinct_nontrivial = histories (plan hash) with at least one applied and at least one refused batch",
+            assumptions: &["the reference is agdb's own mutable transaction on a DbMemory (its atomicity is decided by C13/C03/C32, its variant independence by C06)", "audit entries are compared without their timestamps"],
+            real: REAL,
+            stub: STUB,
+            eval_unit: "batch steps compared with the reference (state + audit)",
         }),
         _ => None,
     }
